@@ -72,7 +72,7 @@ PROPS = {
     "C10": dict(
         title="branch isolation (conde {A, B} vs A alone and B alone)",
         props_module="PvModel.Props.C10",
-        props_extra=["PvModel.Props.C04Rel"],
+        props_extra=["PvModel.Props.C04Rel", "PvModel.Props.C17Query"],
         rule="a shared prefix (domains, FD constraints incl. distinctfd, bindings, disequalities, plusz) followed by conde of 2-3 clauses that post "
              "bindings/disequalities/domains/FD/CLP(Z) constraints and may produce several interleaved answers; the same prefix followed by each "
              "clause alone; oracle: multiset(combined) = union of the separate runs; observable for the model: the combined answer sequence; "
@@ -84,7 +84,7 @@ PROPS = {
     "C16": dict(
         title="CLP(FD) soundness (answers satisfy every posted constraint)",
         props_module="PvModel.Props.C16",
-        props_extra=["PvModel.Props.C16Rel", "PvModel.Props.C16Keys", "PvModel.Props.C17Enforce"],
+        props_extra=["PvModel.Props.C16Rel", "PvModel.Props.C16Keys", "PvModel.Props.C17Enforce", "PvModel.Props.C17Query"],
         rule="every program twice: (1) as a query — FD programs: 1-4 variables, interval and sparse (unsorted, duplicated) domains over -4..=4 with mixed signs placed before/between/after "
              "the constraints, 1-5 constraints of every kind with operand aliasing and constants, == between variables and to numbers, 1 in 6 with a "
              "conde of constraint groups, hidden (non-query) FD variables; observable: answer sequence; oracle: brute force over the window — every "
@@ -117,6 +117,7 @@ PROPS = {
     "C03": dict(
         title="reification (closed answers, shared _ variables, relevant constraints)",
         props_module="PvModel.Props.C03",
+        props_extra=["PvModel.Props.C03Query"],
         rule="pure tree programs (1-6 ==/!= atoms over <=3 query + <=2 hidden variables, conde/fresh), half of them with a query variable bound to an "
              "improper list / nested list / compound of other variables; observable: canonical terms + truth tables of the reported constraints and "
              "of constraints() per query variable; oracle: closedness of terms and constraints, terms/sharing against an independent Robinson solver "
@@ -129,7 +130,7 @@ PROPS = {
     "C04": dict(
         title="reordering conjuncts/disjuncts (answer multiset)",
         props_module="PvModel.Props.C04",
-        props_extra=["PvModel.Props.C04Rel", "PvModel.Props.C04Count", "PvModel.Props.C17Enforce", "PvModel.Props.C17Query"],
+        props_extra=["PvModel.Props.C04Rel", "PvModel.Props.C04Count", "PvModel.Props.C17Enforce", "PvModel.Props.C17Query", "PvModel.Props.C04Query"],
         rule="terminating programs, half pure tree (==, !=, fresh, nested conde) and half FD (the C16 generator incl. conde and structured query "
              "terms); each run as written and under random permutations of every conjunction and every clause list (all permutations of a "
              "top-level conjunction of <=3 goals); answers compared as multisets of (canonical terms, truth table of the reported constraints) / "
